@@ -10,6 +10,7 @@ import re as stdre
 
 from mc import lib
 
+CASE_TIMEOUT_S = 600      # wall-clock horizon per state (states of this check bundle many sub-states; generous for loaded machines)
 PROPERTY = 'C06'
 RULE = ('full product spaces: (sites) all protein strings of length 0..L over {K,R,P,D,E,A,F,L,G} x 27 rules; (spans) all '
         'site subsets of {0..n}, n<=N x mc 0..4 x semi x min_len x max_len in {None,1..n+1} for every span builder; '
